@@ -186,6 +186,12 @@ func (m *runtimeContextManager) requireCPU(cpuAmount uint64) {
 		cpuUsed = ^uint64(0)
 	}
 	if atLimit(cpuUsed, m.hardLimits.Cpu) {
+		// The context has used up all it was allowed: record that, so that when
+		// it is popped its parent is charged the whole allowance (a child's limit
+		// is what its parent has left, so the parent is terminated in turn).
+		if m.status == StatusLive {
+			m.usedResources.Cpu = m.hardLimits.Cpu
+		}
 		m.TerminateContext("CPU limit of %d exceeded", m.hardLimits.Cpu)
 	}
 	if m.trackTime && m.nextCpuThreshold <= cpuUsed {
@@ -218,6 +224,10 @@ func (m *runtimeContextManager) requireMem(memAmount uint64) {
 		memUsed = ^uint64(0)
 	}
 	if atLimit(memUsed, m.hardLimits.Memory) {
+		// As for the CPU: the parent will be charged the whole allowance.
+		if m.status == StatusLive {
+			m.usedResources.Memory = m.hardLimits.Memory
+		}
 		m.TerminateContext("memory limit of %d exceeded", m.hardLimits.Memory)
 	}
 	m.usedResources.Memory = memUsed
